@@ -184,3 +184,82 @@ uint32_t assemble_good(const uint8_t* p, int nbytes) {
     for (int i = 0; i < nbytes; i++) v |= (uint32_t)p[i] << (i * 8);
     return v;
 }
+
+/* ---- R21 progress: a refill step that gives up records an error or has nothing owed */
+typedef struct { const uint8_t* data; size_t size; size_t pos; long run_remaining; int status; } ctl_rle_t;
+static _Bool ctl_refill_bad(ctl_rle_t* dec) {
+    if (dec->run_remaining <= 0) return 0;
+    if (dec->pos + 4 > dec->size) {
+        if (dec->pos < dec->size) dec->status = CTL_ERR;
+        return 0;                       /* values still owed, nothing recorded */
+    }
+    dec->pos += 4;
+    return 1;
+}
+static _Bool ctl_refill_good(ctl_rle_t* dec) {
+    if (dec->run_remaining <= 0) return 0;
+    if (dec->pos + 4 > dec->size) {
+        dec->status = CTL_ERR;
+        return 0;
+    }
+    dec->pos += 4;
+    return 1;
+}
+long ctl_drive(ctl_rle_t* dec, long want) {
+    long got = 0;
+    while (got < want && dec->status == CTL_OK && dec->run_remaining > 0) {
+        if (!ctl_refill_bad(dec)) break;
+        if (!ctl_refill_good(dec)) break;
+        got++; dec->run_remaining--;
+    }
+    return got;
+}
+
+/* ---- R22 lazy-init: tables are built before they are read */
+static uint32_t ctl_table[256];
+static int ctl_table_ready;
+static void ctl_table_init(void) {
+    for (int i = 0; i < 256; i++) ctl_table[i] = (uint32_t)i * 2654435761u;
+    ctl_table_ready = 1;
+}
+uint32_t lazy_bad(const uint8_t* p, size_t n) {
+    uint32_t h = 0;
+    if (n >= 8 && !ctl_table_ready) ctl_table_init();
+    while (n--) h = ctl_table[(h ^ *p++) & 0xFF] ^ (h >> 8);     /* n < 8: table may still be zeros */
+    return h;
+}
+uint32_t lazy_good(const uint8_t* p, size_t n) {
+    uint32_t h = 0;
+    if (!ctl_table_ready) ctl_table_init();
+    while (n--) h = ctl_table[(h ^ *p++) & 0xFF] ^ (h >> 8);
+    return h;
+}
+
+/* ---- R1.atomic: a failed growth leaves counts and capacities unchanged */
+typedef struct { uint8_t* data; size_t size; size_t capacity; } ctl_vec_t;
+ctl_status_t grow_atomic_bad(ctl_vec_t* v, size_t need) {
+    if (need <= v->capacity) return CTL_OK;
+    v->capacity = need * 2;
+    uint8_t* p = (uint8_t*)realloc(v->data, v->capacity);
+    if (!p) return CTL_ERR;             /* capacity already claims the room */
+    v->data = p;
+    return CTL_OK;
+}
+ctl_status_t grow_atomic_good(ctl_vec_t* v, size_t need) {
+    if (need <= v->capacity) return CTL_OK;
+    size_t cap = need * 2;
+    uint8_t* p = (uint8_t*)realloc(v->data, cap);
+    if (!p) return CTL_ERR;
+    v->data = p;
+    v->capacity = cap;
+    return CTL_OK;
+}
+
+/* ---- feasible-path pruning of R1.alloc: `n > 0` false and `i < n` true (i == 0) exclude each other */
+int alloc_infeasible_good(int n) {
+    int* a = (int*)calloc((size_t)n, sizeof(int));
+    if (n > 0 && !a) return -1;
+    for (int i = 0; i < n; i++) a[i] = i;
+    free(a);
+    return 0;
+}
